@@ -100,3 +100,34 @@ Fixpoint vv_loop (op : binop) (retBool : bool) (m : vmatch) (rhs lhs : list elem
 (* None also for duplicate signatures on the right-hand side ("found duplicate series for the match group") *)
 Definition vv_binop (op : binop) (retBool : bool) (m : vmatch) (lhs rhs : list elem) : option (list elem) :=
   if nodup_sigs (map (fun e => sig m (fst e)) rhs) then vv_loop op retBool m rhs lhs [] else None.
+
+(* ---------------------------------------------------------------------------------------------------- *)
+(* range queries: the operator walks the rows of the two matched series step by step                      *)
+(* (engine/executor/prom_binop_transform.go computeMatchResult).  A chunk of the primary side holds the rows  *)
+(* (step, value) of consecutive series (tag groups); the secondary series is merged with the rows of its    *)
+(* match group g.  Today's code leaves the group only at the end of the CHUNK (primaryGroups.add(pChunk.Len())): *)
+(* the cursor runs on into the rows of the following series.  The repaired code stops at the end of the group. *)
+
+Fixpoint join_walk (f : Q -> Q -> Q) (fuel : nat) (s p : list sample) : list sample :=
+  match fuel with
+  | O => []
+  | S k =>
+      match s, p with
+      | (ts, vs) :: s', (tp, vp) :: p' =>
+          if (tp <? ts)%Z then join_walk f k s p'
+          else if (ts <? tp)%Z then join_walk f k s' p
+          else (tp, f vs vp) :: join_walk f k s' p'
+      | _, _ => []
+      end
+  end.
+
+Definition walk_rows (f : Q -> Q -> Q) (s p : list sample) : list sample := join_walk f (length s + length p) s p.
+Definition walk_current (f : Q -> Q -> Q) (s : list sample) (chunk : list (list sample)) (g : nat) : list sample :=
+  walk_rows f s (concat (skipn g chunk)).
+Definition walk_repaired (f : Q -> Q -> Q) (s : list sample) (chunk : list (list sample)) (g : nat) : list sample :=
+  walk_rows f s (nth g chunk []).
+
+(* what the sequence of instant queries gives: a point at every step at which BOTH series have a value *)
+Definition value_at (t : Z) (p : list sample) : option Q := option_map snd (find (fun r => (fst r =? t)%Z) p).
+Definition join_spec (f : Q -> Q -> Q) (s p : list sample) : list sample :=
+  flat_map (fun r => match value_at (fst r) p with Some vp => [(fst r, f (snd r) vp)] | None => [] end) s.
